@@ -18,7 +18,9 @@ def nontrivial(kind, st, r):
         return g("n") >= 3 and g("m") >= 2
     if kind in ("sig", "vset", "opts", "result"):
         return g("size", 1) >= 1
-    if kind in ("call", "redef", "conv", "hist"):
+    if kind == "hist":
+        return g("onceused") >= 1 or g("execs") >= 2
+    if kind in ("call", "redef", "conv"):
         return g("execs") >= 1 or (st.get("outcome") == "unsat" and g("convs") >= 1)
     return True
 
@@ -103,9 +105,9 @@ PROPS = {
         "exhaustive": {"quick": False, "thorough": False},
     },
     "C01": {
-        "claim": "(theorems pending) Every executed function receives supplied or previously returned values whose origin label is compatible with the parameter under the matching table. Tied to the code by trace conformance: the real call graph, requirement order, Dijkstra pop orders, chosen paths, every argument list and the outcome are replayed through the model; the predicate is evaluated on the real trace with provenance ids.",
+        "claim": "Theorems: the matching table is closed under flow along the edge rules (flow_compat, needs ImplTrans and ImplAntisym); every edge of the graph callGraph builds is an instance of a rule (callGraph_edges); for every oracle and behaviour every executed function receives a full argument list whose members entered the graph at an origin vertex and flowed to the parameter vertex (call_args_flow); together: injection_sound_partial. Every executed function receives supplied or previously returned values whose origin label is compatible with the parameter under the matching table. Tied to the code by trace conformance: the real call graph, requirement order, Dijkstra pop orders, chosen paths, every argument list and the outcome are replayed through the model; the predicate is evaluated on the real trace with provenance ids.",
         "note": "reflect / hclog / user function bodies are modelled (arbitrary behaviours); twin interfaces (finding F14) excluded by hypothesis once proved.",
-        "theorems": [],
+        "theorems": ["ArgMapper.C01.flow_compat", "ArgMapper.C01.callGraph_edges", "ArgMapper.C01.call_args_flow", "ArgMapper.C01.initSt_storeOK", "ArgMapper.C01.flow_ruleFlow", "ArgMapper.C01.callGraph_store_origin", "ArgMapper.C01.injection_sound_partial", "ArgMapper.C01.counterexample_twin_interfaces"],
         "facts": {"r5SkipSame": "true", "r6NameTest": "true", "publishAfterUpdate": "true", "trackReaching": "true", "takeValuedNamed": "true", "memoCopy": "true"},
         "rule": "call: at least one function executed, or an unsatisfied error with a converter present.",
         "runs": {"quick": [fam("call", 600, 0)], "thorough": [fam("call", 100000, 0)]},
@@ -116,7 +118,8 @@ PROPS = {
         "theorems": [],
         "facts": {"r5SkipSame": "true", "r6NameTest": "true", "publishAfterUpdate": "true", "trackReaching": "true", "takeValuedNamed": "true", "memoCopy": "true"},
         "rule": "call: at least one function executed, or an unsatisfied error with a converter present; sig: positional signatures.",
-        "runs": {"quick": [fam("call", 800, 0), fam("sig", 600, 5)], "thorough": [fam("call", 200000, 0), fam("sig", 50000, 5)]},
+        "runs": {"quick": [fam("call", 800, 0), fam("sig", 600, 5), fam("hist", 400, 0), fam("redef", 300, 0), fam("conv", 300, 0)],
+                 "thorough": [fam("call", 200000, 0), fam("sig", 50000, 5), fam("hist", 40000, 0), fam("redef", 30000, 0), fam("conv", 30000, 0)]},
     },
     "C02": {
         "claim": "(theorems pending) Unsatisfiable calls are refused: error returned, target never run, no converter run with a missing argument, dedicated error type when every converter is satisfiable. Tied to the code by trace conformance on scenarios with a hopeless / underivable parameter (dead types, AND-unreachable converters, cycles) and the predicate evaluated on the real trace against the executable derivability fixpoint.",
@@ -135,7 +138,7 @@ PROPS = {
     },
     "C04": {
         "claim": "Theorems (for every graph, oracle, behaviour and fuel): a failing execution is the last execution of the call and its error is what Call returns; a successful call executed no failing function; the target's own error is reported by the accessor. Tied to the code by trace conformance on chains with failing converters at every depth (multi-input, struct-returning, memoised) with error identity checked through provenance ids.",
-        "note": "", "theorems": [], "facts": {"r5SkipSame": "true", "r6NameTest": "true", "publishAfterUpdate": "true", "trackReaching": "true", "takeValuedNamed": "true", "memoCopy": "true"},
+        "note": "", "theorems": ["ArgMapper.C04.failing_execution_is_last", "ArgMapper.C04.ok_means_no_failure", "ArgMapper.C04.target_error_reported", "ArgMapper.C04.conv_error_verbatim"], "facts": {"r5SkipSame": "true", "r6NameTest": "true", "publishAfterUpdate": "true", "trackReaching": "true", "takeValuedNamed": "true", "memoCopy": "true"},
         "rule": "call: at least one function executed.",
         "runs": {"quick": [fam("call", 500, 0, "fail"), fam("call", 200, 0, "general")],
                  "thorough": [fam("call", 50000, 0, "fail"), fam("call", 20000, 0, "general")]},
@@ -162,15 +165,29 @@ PROPS = {
     "C08": {
         "claim": "(theorems pending) Redefine yields a function over exactly the missing, permitted inputs. Tied to the code by replaying the planning run (redefine-mode reachTarget with zero-producing stand-ins) through the model: call graph with filter-gated root edges, requirement order, pop orders, paths and the declared input set are compared; the redefined function is then called and the inner Call is replayed as an ordinary call with the extra values.",
         "note": "premise of the property: single-input converters, no subtypes, one type per name (the generator respects it).",
-        "theorems": [], "facts": {"r5SkipSame": "true", "r6NameTest": "true", "publishAfterUpdate": "true", "trackReaching": "true", "takeValuedNamed": "true", "memoCopy": "true", "r8SkipSupplied": "true", "skipRecordsInput": "false"},
+        "theorems": [], "facts": {"r5SkipSame": "true", "r6NameTest": "true", "publishAfterUpdate": "true", "trackReaching": "true", "takeValuedNamed": "true", "memoCopy": "true", "r8SkipSupplied": "true", "skipRecordsInput": "false", "dupIsError": "true"},
         "rule": "redef: any planning run; call: at least one function executed.",
         "runs": {"quick": [fam("redef", 500, 0)], "thorough": [fam("redef", 40000, 0)]},
     },
     "C09": {
         "claim": "(theorems pending) Redefine is pure planning: no user function body runs during Redefine and no function object is disturbed. Tied to the code by execution counters around every Redefine and by histories interleaving Redefine and Call on shared function objects, replayed through the model with the memo cells threaded.",
         "note": "converter generators (user code run while the graph is built) are outside the statement.",
-        "theorems": [], "facts": {"r5SkipSame": "true", "r6NameTest": "true", "publishAfterUpdate": "true", "trackReaching": "true", "takeValuedNamed": "true", "memoCopy": "true", "r8SkipSupplied": "true", "skipRecordsInput": "false"},
+        "theorems": [], "facts": {"r5SkipSame": "true", "r6NameTest": "true", "publishAfterUpdate": "true", "trackReaching": "true", "takeValuedNamed": "true", "memoCopy": "true", "r8SkipSupplied": "true", "skipRecordsInput": "false", "dupIsError": "true"},
         "rule": "redef: any planning run.",
-        "runs": {"quick": [fam("redef", 400, 0)], "thorough": [fam("redef", 30000, 0)]},
+        "runs": {"quick": [fam("redef", 400, 0), fam("hist", 500, 0)], "thorough": [fam("redef", 30000, 0), fam("hist", 40000, 0)]},
+    },
+    "C10": {
+        "claim": "(theorems pending) Convert agrees with calling an identity function of the target type. In the model Convert *is* callWith on the identity FuncDesc; tied to the code by running, per scenario, the real Convert and the real Call on a harness-built func(T) T with the same options, replaying both through the model (targets: concrete, interface, error, pointer types; a user converter of the identity's own Go type included).",
+        "note": "the library's own identity closure cannot be instrumented: its behaviour (returns its argument) is assumed in the replay of Convert runs.",
+        "theorems": [], "facts": {"r5SkipSame": "true", "r6NameTest": "true", "publishAfterUpdate": "true", "trackReaching": "true", "takeValuedNamed": "true", "memoCopy": "true", "r8SkipSupplied": "true", "skipRecordsInput": "false", "dupIsError": "true"},
+        "rule": "conv: at least one function executed, or an unsatisfied error with a converter present.",
+        "runs": {"quick": [fam("conv", 500, 0)], "thorough": [fam("conv", 50000, 0)]},
+    },
+    "C11": {
+        "claim": "(theorems pending) A run-once function executes at most once over any history and later uses see the first result. Sequential part: histories of Call / Redefine on shared function objects are replayed through the model with the memo cells threaded, and the number of executions per run-once function is counted on the real trace. Concurrent part: see DESIGN.md (race-detector stress; not yet registered).",
+        "note": "partial: the concurrent clause is decided by exploration under the race detector.",
+        "theorems": [], "facts": {"r5SkipSame": "true", "r6NameTest": "true", "publishAfterUpdate": "true", "trackReaching": "true", "takeValuedNamed": "true", "memoCopy": "true", "r8SkipSupplied": "true", "skipRecordsInput": "false", "dupIsError": "true"},
+        "rule": "hist: a run-once function was needed at least once.",
+        "runs": {"quick": [fam("hist", 800, 0)], "thorough": [fam("hist", 60000, 0)]},
     },
 }
